@@ -103,7 +103,8 @@ pub fn check_roundtrip(c: &mut Case, name: &str, t: &TextArchive, content: &Cont
         c.outcome("miri_skipped_utf16_reparse");
         return;
     }
-    match c.lib("TextArchive::from_bytes", || TextArchive::from_bytes(&ser, fmt(content.unicode), endian(content.be))) {
+    let ser_t = crate::monitor::tight(&ser);
+    match c.lib("TextArchive::from_bytes", || TextArchive::from_bytes(&ser_t, fmt(content.unicode), endian(content.be))) {
         None => {}
         Some(Err(e)) => c.fail(
             "reparse_err",
